@@ -838,3 +838,99 @@ def ex_reject_misc(c):
 
 
 EXECUTORS.update({"reject_misc": ex_reject_misc})
+
+
+# ---------------------------------------------------------------------------------------------- C15 noise
+def ex_noise(c):
+    a = arr(c["a"], c.get("container", "array"))
+    a0 = np.array(a, dtype=float, copy=True)
+    draw = np.array([fl(r) for r in c["draw"]], dtype=float)
+    calls = []
+
+    def recorder(loc=0.0, scale=1.0, size=None):
+        sc = np.atleast_1d(np.asarray(scale, dtype=float)).ravel()
+        shape = (size,) if isinstance(size, int) else tuple(size) if size is not None else None
+        calls.append({"loc": fx(loc), "scale": fxs(sc.tolist()), "shape_ok": bool(shape == a0.shape)})
+        return draw.copy().reshape(a0.shape) if shape == a0.shape else np.zeros(shape if shape else ())
+
+    kw = {}
+    if c["mode"] == "std":
+        kw = {"snr": None, "std": fl(c["std"])}
+    else:
+        v = [fl(r) for r in c["snr"]]
+        kw = {"snr": v[0] if len(v) == 1 else (v if c.get("snr_container") == "list" else np.array(v)), "snr_in_db": c["mode"] == "db"}
+
+    def call():
+        if c["via"] == "weaver":
+            x = np.arange(len(a0), dtype=float) * 0.5 + 3
+            w = Weaver(x, a)
+            xb = np.asarray(w.get()[0]).tobytes()
+            k2 = dict(kw)
+            snr = k2.pop("snr")
+            w.noise(snr, **k2)
+            return np.asarray(w.get()[1]), np.asarray(w.get()[0]).tobytes() == xb and len(w) == len(a0)
+        return proc.noise_gauss(a, **kw), True
+
+    saved = np.random.normal
+    np.random.normal = recorder
+    try:
+        oc, o = guarded(call)
+    finally:
+        np.random.normal = saved
+    # reproducibility with the real generator: same seed -> identical result
+    def real(seed):
+        np.random.seed(seed)
+        return np.asarray(proc.noise_gauss(np.array(a0, copy=True), **kw))
+    roc, r = guarded(lambda: (real(12345), real(12345), real(54321)))
+    e = dict(c)
+    e.update(outcome=oc, calls=calls, out=vec(o[0]) if oc == "ok" else [], wx_same=bool(o[1]) if oc == "ok" else False,
+             rep_same=bool(roc == "ok" and r[0].tobytes() == r[1].tobytes()), rep_differs=bool(roc == "ok" and r[0].tobytes() != r[2].tobytes()))
+    return e
+
+
+# ---------------------------------------------------------------------------------------------- C16 smoothing
+def ex_smooth(c):
+    import warnings as _w
+    x, y = arr(c["x"]), arr(c["y"])
+    x0, y0 = np.array(x, copy=True), np.array(y, copy=True)
+    s = c["s_f"]
+    warned = [False]
+
+    def run():
+        with _w.catch_warnings(record=True) as rec:
+            _w.simplefilter("always")
+            w = Weaver(np.array(x, copy=True), np.array(y, copy=True))
+            w.smooth(s)
+            gx, gy = w.get()
+            w2 = Weaver(np.array(x, copy=True), np.array(y, copy=True))
+            w2.smooth(None)
+            w3 = Weaver(np.array(x, copy=True), np.array(y, copy=True))
+            w3.smooth(len(y0) * float(np.var(y0)))
+            f = Weaver(np.array(x, copy=True), np.array(y, copy=True)).to_function()
+            fv = np.asarray(f(x0), dtype=float)
+            fs = proc.spline_smooth(x0, y0, s)(x0)
+            warned[0] = any("splrep" in str(r.message).lower() or "fitpack" in str(r.message).lower() or "s too small" in str(r.message).lower()
+                            or issubclass(r.category, RuntimeWarning) for r in rec)
+        return np.asarray(gx), np.asarray(gy, dtype=float), np.asarray(w2.get()[1], dtype=float), np.asarray(w3.get()[1], dtype=float), fv, np.asarray(fs, dtype=float)
+    try:
+        gx, gy, gnone, gdef, fv, fs = run()
+        oc = "ok"
+    except Exception as ex:  # noqa
+        oc = type(ex).__name__
+    e = {k: v for k, v in c.items() if k != "s_f"}
+    if oc != "ok":
+        e.update(outcome=oc, n=len(y0), dev=[], s_scaled=-1, same_x=False, same_len=False, yf=[], out=[], out_none=[], out_default=[], fun0=[], direct=[], warned=False)
+        return e
+    scale = max(1.0, float(np.max(np.abs(y0))))
+    d = gy - y0 if gy.shape == y0.shape else np.zeros_like(y0)
+    m = float(np.max(np.abs(d))) if len(d) else 0.0
+    unit = (m / 1000.0) if m > 0 else 1.0
+    dev = [int(round(v / unit)) for v in d]
+    s_scaled = int(min(10 ** 9, np.ceil(s / (unit * unit)))) if np.isfinite(s / (unit * unit)) else 10 ** 9
+    e.update(outcome="ok", n=len(y0), dev=dev, s_scaled=s_scaled, s_given=fx(s),
+             same_x=bool(gx.dtype == x0.dtype and gx.tobytes() == x0.tobytes()), same_len=bool(gy.shape == y0.shape),
+             yf=fxs(y0.tolist()), out=vec(gy), out_none=vec(gnone), out_default=vec(gdef), fun0=vec(fv), direct=vec(fs), warned=bool(warned[0]))
+    return e
+
+
+EXECUTORS.update({"noise": ex_noise, "smooth": ex_smooth})
